@@ -280,6 +280,7 @@ Definition tok_big (t : tok) : bool :=
   | TDecresc _ v1 v2 => zbig v1 || zbig v2
   | TTiming v | TOctave v | TQLen v | TVelocity v _ => zbig v      (* the plain values read by the same readers *)
   | TPort v => zbig v
+  | TTempoChange a rest => zbig a || existsb zbig rest
   | _ => false
   end.
 Definition otok_big (ot : option tok) : bool := match ot with Some t => tok_big t | None => false end.
@@ -733,6 +734,15 @@ Definition read_ext_command_raw (ls : lexstate) (ttype : list ch) (argt tag1 tag
       let '(vs, s4, ln4, ls') := ra in
       let args := map oz vs in
       Ok (Some (if list_eqb ttype (zs "Voice") then TVoice args else TRpnDirect (list_eqb ttype (zs "NRPN")) args), s4, ln4, ls')
+    else if list_eqb ttype (zs "TempoChange") then
+      let '(s2, ln2) := skip_space s ln in
+      let s3 := if eq_char s2 61 then tl s2 else s2 in
+      do ra <- read_args_tokens ls s3 ln2;
+      let '(vs, s4, ln4, ls') := ra in
+      match map oz vs with
+      | a :: rest => Ok (Some (TTempoChange a rest), s4, ln4, ls')
+      | [] => Unsupported U_UPPER          (* (read_args_tokens yields at least one argument) *)
+      end
     else Unsupported U_UPPER
   else if argt =? 42 then
     if list_eqb ttype (zs "ControlChange") then read_cc ls true s ln
